@@ -87,10 +87,25 @@ func (c18) Gen(r *simrt.Rand, idx int, tier string) *Case {
 		c.Args = []string{"-t", "/w/train.knut", "--inplace", "/w/t.knut"}
 	case "format-n":
 		n := r.Range(2, 4)
+		// one case in eight: many files of which most do not parse (nine to thirteen failures ahead of,
+		// or mixed with, one to three files that can be formatted): every failure is reported, none
+		// holds up the files that are fine
+		many := r.P(0.125)
+		good := map[int]bool{}
+		if many {
+			n = r.Range(11, 15)
+			for k := r.Range(1, 3); k > 0; k-- {
+				if r.Bool() {
+					good[n-k] = true
+				} else {
+					good[r.Intn(n)] = true
+				}
+			}
+		}
 		for i := 0; i < n; i++ {
-			name := fmt.Sprintf("/w/f%d.knut", i)
+			name := fmt.Sprintf("/w/f%02d.knut", i)
 			txt := messy(r, Gen(r, g))
-			if r.P(0.3) {
+			if r.P(0.3) || (many && !good[i]) {
 				txt = "2020-01-01 opn Assets:Broken\n" + txt // does not parse
 			}
 			c.Files[name] = txt
